@@ -1,1 +1,613 @@
+(* Roots/ProofsRenew.v — consequences of the invariant: rejected operations change nothing,
+   restarts serve the same lists, accepted modifications are accepted, the renewal
+   hand-over, predecessors refuse for ever, sectors stay stored. *)
+From Coq Require Import Lia ZifyBool ZifyN ZifyNat.
 From HostdBase Require Import Base.
+From HostdRoots Require Import Model Lists ProofsReplay ProofsInv ProofsStep.
+Open Scope N_scope.
+
+(** * a rejected or failed operation leaves the whole state as it was *)
+
+Lemma outcome_err A s (r : res (A * option nat)) f s' x :
+  outcome s r f = (s', ORes x) -> x <> Ok tt -> s' = s.
+Proof.
+  unfold outcome. destruct r as [[a k]|e|]; intros [= <- <-] H; [now elim H|reflexivity|reflexivity].
+Qed.
+
+Lemma step_error_unchanged s o s' r : step s o = (s', ORes r) -> r <> Ok tt -> s' = s.
+Proof.
+  destruct o; cbn [step]; intros H Hr;
+    try (injection H as <- <-; now elim Hr);
+    try (now apply outcome_err in H);
+    try discriminate.
+  - (* Lock1 *) destruct (mem id (locks s)); [now injection H as <- _|].
+    destruct (alookup id (t1 (dbs s))); [|now injection H as <- _].
+    destruct (good1 (height s) c); injection H as <- <-; [now elim Hr|reflexivity].
+  - (* Unlock1 *) destruct (mem id (locks s)); injection H as <- <-; [now elim Hr|reflexivity].
+  - (* Act *) destruct (alookup u (upds s)); [|discriminate].
+    destruct (upd_apply (u_roots u0) a); discriminate.
+  - (* Commit1 *) destruct (alookup u (upds s)); [|now injection H as <- _].
+    now apply outcome_err in H.
+  - (* Lock2 *) destruct (mem id (locks s)); [discriminate|]. destruct (alookup id (t2 (dbs s))); discriminate.
+  - unfold look in H. destruct (alookup id (t1 (dbs s))); discriminate.
+  - unfold look in H. destruct (alookup id (t2 (dbs s))); discriminate.
+Qed.
+
+(* an updater action the bounds check refuses leaves the updater as it was *)
+Lemma act_error_unchanged s u a s' r l : step s (Act u a) = (s', OAct r l) -> r <> Ok tt -> s' = s.
+Proof.
+  cbn [step]. destruct (alookup u (upds s)) as [x|]; [|now intros [= <- _ _]].
+  destruct (upd_apply (u_roots x) a); intros [= <- <- _] H; [now elim H|reflexivity|reflexivity].
+Qed.
+
+(** * success, spelled out at the level of [step] *)
+
+Lemma outcome_ok A s (m : M A) fault f s' :
+  fok m -> outcome s (m fault) f = (s', ORes (Ok tt)) -> exists a, m None = Ok (a, None) /\ s' = f a.
+Proof.
+  intros F. unfold outcome. destruct (m fault) as [[a k]|e|] eqn:E; intros [= <-]; try discriminate.
+  exists a. split; [|reflexivity]. eapply ok_any_fault; eauto.
+Qed.
+
+Lemma commit1_form s u nrev nfsize nmroot fault s' :
+  step s (Commit1 u nrev nfsize nmroot fault) = (s', ORes (Ok tt)) ->
+  exists x c t', alookup u (upds s) = Some x /\ alookup (u_cid x) (t1 (dbs s)) = Some c /\
+    store_replay (stored (dbs s)) (rows c) (u_old x) (u_acts x) None = Ok (t', None) /\
+    s' = set_upds (set_cache (set_dbs s (set_t1 (dbs s)
+            (aset (u_cid x) (with_rows (with_rev c nrev nfsize nmroot) t') (t1 (dbs s)))))
+            (aset (u_cid x) (u_roots x) (cache s)))
+            (aset u {| u_cid := u_cid x; u_roots := u_roots x; u_old := u_roots x; u_acts := [] |} (upds s)).
+Proof.
+  cbn [step]. destruct (alookup u (upds s)) as [x|]; [|discriminate]. intros H.
+  apply outcome_ok in H as (d' & E & ->); [|apply fok_m_commit1].
+  apply store_revise1_ok in E as (c & t' & Lc & R & ->). now exists x, c, t'.
+Qed.
+
+Lemma revise2_form s id c newroots mnew rsig hsig fault s' :
+  step s (Revise2 id c newroots mnew rsig hsig fault) = (s', ORes (Ok tt)) ->
+  exists e t', alookup id (t2 (dbs s)) = Some e /\ rto e = None /\
+    r2_fsize c = sector_size * nlen newroots /\ r2_mroot c = mnew /\
+    v2_diff (stored (dbs s)) (rows e) (cache_get s id) newroots None = Ok (t', None) /\
+    s' = set_cache (set_dbs s (set_t2 (dbs s) (aset id (with_rows (with_rv2 e c) t') (t2 (dbs s)))))
+           (aset id newroots (cache s)).
+Proof.
+  cbn [step]. intros H. apply outcome_ok in H as (d' & E & ->); [|apply fok_m_revise2].
+  unfold m_revise2, mbind in E.
+  destruct (store_get (t2 (dbs s)) id None) as [[e k0]| |] eqn:Eg; try discriminate.
+  apply store_get_ok in Eg as [Le ->].
+  destruct (opt_is_some (rto e)) eqn:Rto; [discriminate|].
+  destruct (negb (rk e =? r2_rk c)); [discriminate|].
+  destruct (negb (hk e =? r2_hk c)); [discriminate|].
+  destruct (negb (wstart e =? r2_ph c)); [discriminate|].
+  destruct (negb (expi e =? r2_exp c)); [discriminate|].
+  destruct (negb (r2_fsize c =? sector_size * nlen newroots)) eqn:Efs; [discriminate|].
+  destruct (r2_cap c <? r2_fsize c); [discriminate|].
+  destruct (negb rsig); [discriminate|]. destruct (negb hsig); [discriminate|].
+  destruct (negb (r2_mroot c =? mnew)) eqn:Emr; [discriminate|].
+  apply store_revise2_ok in E as (e' & t' & Le' & R & ->).
+  rewrite Le in Le'; injection Le' as <-.
+  exists e, t'. repeat split; auto; try lia.
+  destruct (rto e); [discriminate|reflexivity].
+Qed.
+
+Definition nc1 (nrev nfsize : N) (nmroot : hash) (nws : N) : ct :=
+  {| rev := nrev; fsize := nfsize; cap := 0; mroot := nmroot; wstart := nws; expi := 0;
+     rk := 0; hk := 0; rto := None; rfrom := None; rows := [] |}.
+
+Lemma renew1_form s old new crev cfsize cmroot nrev nfsize nmroot nws mold fault s' c :
+  alookup old (t1 (dbs s)) = Some c ->
+  step s (Renew1 old new crev cfsize cmroot nrev nfsize nmroot nws mold fault) = (s', ORes (Ok tt)) ->
+  alookup new (t1 (dbs s)) = None /\ old <> new /\
+    crev = max_rev /\ cfsize = 0 /\ cmroot = 0 /\
+    nfsize = sector_size * nlen (cache_get s old) /\ nmroot = mold /\
+    s' = set_cache (set_dbs s (set_t1 (dbs s)
+           (move_rows old new (link_from old new
+              (aset old (with_to (with_rev c crev cfsize cmroot) (Some new))
+                 (aset new (nc1 nrev nfsize nmroot nws) (t1 (dbs s))))))))
+           (aset new (cache_get s old) (cache s)).
+Proof.
+  intros Lc. cbn [step]. intros H. apply outcome_ok in H as (d' & E & ->); [|apply fok_m_renew1].
+  unfold m_renew1 in E.
+  destruct (negb (cmroot =? 0)) eqn:E1; [discriminate|]. destruct (negb (cfsize =? 0)) eqn:E2; [discriminate|].
+  destruct (negb (crev =? max_rev)) eqn:E3; [discriminate|].
+  destruct (negb (nfsize =? sector_size * nlen (cache_get s old))) eqn:E4; [discriminate|].
+  destruct (negb (nmroot =? mold)) eqn:E5; [discriminate|].
+  apply store_renew1_ok in E as (Ln1 & c0 & Lc0 & ->).
+  assert (Hne : old <> new) by (intros ->; congruence).
+  rewrite alookup_aset_other in Lc0 by exact Hne. rewrite Lc in Lc0; injection Lc0 as <-.
+  repeat split; auto; lia.
+Qed.
+
+Lemma renew2_form s old new c mold wf fault s' :
+  step s (Renew2 old new c mold wf fault) = (s', ORes (Ok tt)) ->
+  exists e, alookup old (t2 (dbs s)) = Some e /\ alookup new (t2 (dbs s)) = None /\ old <> new /\
+    r2_fsize c = fsize e /\ r2_cap c = cap e /\ r2_mroot c = mroot e /\ r2_mroot c = mold /\
+    s' = set_cache (set_dbs s (set_t2 (dbs s)
+           (move_rows old new (link_from old new
+              (aset old (with_to e (Some new)) (aset new (ct_of_rv2 c) (t2 (dbs s))))))))
+           (aset new (cache_get s old) (cache s)).
+Proof.
+  cbn [step]. intros H. apply outcome_ok in H as (d' & E & ->); [|apply fok_m_renew2].
+  unfold m_renew2 in E. destruct (negb wf); [discriminate|]. unfold mbind in E.
+  destruct (store_get (t2 (dbs s)) old None) as [[e k0]| |] eqn:Eg; try discriminate.
+  apply store_get_ok in Eg as [Le ->].
+  destruct (negb (r2_fsize c =? fsize e)) eqn:E1; [discriminate|].
+  destruct (negb (r2_cap c =? cap e)) eqn:E2; [discriminate|].
+  destruct (negb (r2_mroot c =? mroot e)) eqn:E3; [discriminate|].
+  destruct (negb (r2_mroot c =? mold)) eqn:E4; [discriminate|].
+  apply store_renew2_ok in E as (Ln2 & c0 & Lc0 & ->).
+  assert (Hne : old <> new) by (intros ->; congruence).
+  rewrite alookup_aset_other in Lc0 by exact Hne. rewrite Le in Lc0; injection Lc0 as <-.
+  exists e. repeat split; auto; lia.
+Qed.
+
+Section Renew.
+Variable meta : list root -> hash.
+Notation Inv := (Inv meta).
+Notation disc := (disc meta).
+
+(** * the invariant, read out for a contract that has not been superseded *)
+
+Definition is_live (s : state) (id : cid) (c : ct) : Prop :=
+  (alookup id (t1 (dbs s)) = Some c \/ alookup id (t2 (dbs s)) = Some c) /\ rto c = None.
+
+Lemma inv_live s id c : Inv s -> is_live s id c ->
+  tbl_list (rows c) = cache_get s id /\
+  fsize c = sector_size * nlen (cache_get s id) /\
+  mroot c = meta (cache_get s id).
+Proof.
+  intros I [[L|L] R].
+  - destruct (live_rows meta _ _ _ _ _ (inv_t1 meta s I) L R) as (-> & F & M).
+    now rewrite tbl_list_of.
+  - destruct (live_rows meta _ _ _ _ _ (inv_t2 meta s I) L R) as (-> & F & M).
+    now rewrite tbl_list_of.
+Qed.
+
+(** * Restart *)
+
+Lemma restart_same_lists s id c : Inv s -> is_live s id c ->
+  dbs (fst (step s Restart)) = dbs s /\ cache_get (fst (step s Restart)) id = cache_get s id.
+Proof.
+  intros I HL. split; [reflexivity|]. cbn [step fst].
+  rewrite (cache_get_load meta s id I).
+  destruct (inv_live s id c I HL) as (<- & _). destruct HL as [[L|L] R].
+  - now rewrite L.
+  - destruct (alookup id (t1 (dbs s))) eqn:L1; [|now rewrite L].
+    rewrite (inv_disj meta s I id) in L by congruence. discriminate.
+Qed.
+
+(** * accepted modifications are accepted *)
+
+Lemma store_revise1_run d id nrev nfsize nmroot old acts c t' :
+  alookup id (t1 d) = Some c -> store_replay (stored d) (rows c) old acts None = Ok (t', None) ->
+  store_revise1 d id nrev nfsize nmroot old acts None =
+  Ok (set_t1 d (aset id (with_rows (with_rev c nrev nfsize nmroot) t') (t1 d)), None).
+Proof. intros L R. cbv [store_revise1 transaction mbind stmt ret lift]. now rewrite L, R. Qed.
+
+Lemma store_revise2_run d id c old new e t' :
+  alookup id (t2 d) = Some e -> v2_diff (stored d) (rows e) old new None = Ok (t', None) ->
+  store_revise2 d id c old new None =
+  Ok (set_t2 d (aset id (with_rows (with_rv2 e c) t') (t2 d)), None).
+Proof. intros L R. cbv [store_revise2 transaction mbind stmt ret lift]. now rewrite L, R. Qed.
+
+Lemma store_get_run t id c : alookup id t = Some c -> store_get t id None = Ok (c, None).
+Proof. intros L. cbv [store_get transaction mbind stmt ret lift]. now rewrite L. Qed.
+
+(* a commit whose sectors are stored is accepted, and serves the updater's list *)
+Lemma commit_accepted s u x nrev nfsize nmroot :
+  Inv s -> alookup u (upds s) = Some x ->
+  acts_stored (stored (dbs s)) (u_acts x) = true ->
+  snd (step s (Commit1 u nrev nfsize nmroot None)) = ORes (Ok tt) /\
+  cache_get (fst (step s (Commit1 u nrev nfsize nmroot None))) (u_cid x) = u_roots x.
+Proof.
+  intros I L S. destruct (inv_upd meta s I u x L) as ((c & Lc & Rc) & Hold & Hfold & _).
+  destruct (live_rows meta _ _ _ _ _ (inv_t1 meta s I) Lc Rc) as (Hrows & _).
+  cbn [step]. rewrite L. unfold m_commit1.
+  rewrite (store_revise1_run _ _ _ _ _ _ _ c (tbl_of (u_roots x)) Lc).
+  - cbn [outcome snd fst]. split; [reflexivity|].
+    unfold cache_get; cbn [cache set_upds set_cache]. now rewrite alookup_aset_same.
+  - rewrite Hrows, <- Hold. now apply replay_refines_list.
+Qed.
+
+(* a commit that needs a sector the host does not store is rejected as a whole *)
+Lemma commit_missing_rejected s u x nrev nfsize nmroot :
+  Inv s -> alookup u (upds s) = Some x ->
+  acts_stored (stored (dbs s)) (u_acts x) = false ->
+  step s (Commit1 u nrev nfsize nmroot None) = (s, ORes (Err EOther)).
+Proof.
+  intros I L S. destruct (inv_upd meta s I u x L) as ((c & Lc & Rc) & Hold & Hfold & _).
+  destruct (live_rows meta _ _ _ _ _ (inv_t1 meta s I) Lc Rc) as (Hrows & _).
+  cbn [step]. rewrite L. unfold m_commit1.
+  assert (E : store_revise1 (dbs s) (u_cid x) nrev nfsize nmroot (u_old x) (u_acts x) None = Err EOther).
+  { cbv [store_revise1 transaction mbind stmt ret lift]. rewrite Lc, Hrows, <- Hold.
+    now rewrite (replay_missing _ _ _ _ Hfold S). }
+  now rewrite E.
+Qed.
+
+(* a well-formed v2 revision of a live contract whose new sectors are stored is accepted *)
+Lemma revise2_accepted s id e c newroots :
+  Inv s -> alookup id (t2 (dbs s)) = Some e -> rto e = None ->
+  rk e = r2_rk c -> hk e = r2_hk c -> wstart e = r2_ph c -> expi e = r2_exp c ->
+  r2_fsize c = sector_size * nlen newroots -> r2_fsize c <= r2_cap c ->
+  r2_mroot c = meta newroots -> all_stored (stored (dbs s)) newroots = true ->
+  snd (step s (Revise2 id c newroots (meta newroots) true true None)) = ORes (Ok tt) /\
+  cache_get (fst (step s (Revise2 id c newroots (meta newroots) true true None))) id = newroots.
+Proof.
+  intros I L R K1 K2 K3 K4 Fs Cp Mr St.
+  destruct (live_rows meta _ _ _ _ _ (inv_t2 meta s I) L R) as (Hrows & _).
+  cbn [step]. unfold m_revise2, mbind. rewrite (store_get_run _ _ _ L), R. cbn [opt_is_some].
+  rewrite K1, K2, K3, K4, !N.eqb_refl. cbn [negb].
+  replace (r2_fsize c =? sector_size * nlen newroots) with true by lia.
+  replace (r2_cap c <? r2_fsize c) with false by lia.
+  replace (r2_mroot c =? meta newroots) with true by lia. cbn [negb].
+  rewrite (store_revise2_run _ _ _ _ _ e (tbl_of newroots) L).
+  - cbn [outcome snd fst]. split; [reflexivity|].
+    unfold cache_get; cbn [cache set_cache]. now rewrite alookup_aset_same.
+  - rewrite Hrows. now apply v2_diff_correct.
+Qed.
+
+(* a live v1 contract far enough from its proof window can be locked *)
+Lemma lock1_accepted s id c :
+  alookup id (t1 (dbs s)) = Some c -> mem id (locks s) = false -> good1 (height s) c = true ->
+  snd (step s (Lock1 id)) = ORes (Ok tt).
+Proof. intros L M G. cbn [step]. now rewrite M, L, G. Qed.
+
+(** * the renewal hand-over *)
+
+Record handover (v1 : bool) (s s' : state) (old new : cid) (c0 : ct) : Prop := {
+  ho_list_db : exists cn, (if v1 then alookup new (t1 (dbs s')) else alookup new (t2 (dbs s'))) = Some cn /\
+      tbl_list (rows cn) = tbl_list (rows c0) /\ fsize cn = fsize c0 /\ mroot cn = mroot c0 /\
+      rto cn = None /\ rfrom cn = Some old;
+  ho_list_served : cache_get s' new = cache_get s old /\ cache_get s old = tbl_list (rows c0);
+  ho_pred : exists co, (if v1 then alookup old (t1 (dbs s')) else alookup old (t2 (dbs s'))) = Some co /\
+      rto co = Some new /\ rows co = [] /\ (v1 = true -> rev co = max_rev);
+  ho_stored : stored (dbs s') = stored (dbs s) /\ located (dbs s') = located (dbs s) }.
+
+Theorem renew1_handover s old new crev cfsize cmroot nrev nfsize nmroot nws mold fault s' :
+  Inv s -> disc s (Renew1 old new crev cfsize cmroot nrev nfsize nmroot nws mold fault) ->
+  step s (Renew1 old new crev cfsize cmroot nrev nfsize nmroot nws mold fault) = (s', ORes (Ok tt)) ->
+  exists c0, alookup old (t1 (dbs s)) = Some c0 /\ rto c0 = None /\ handover true s s' old new c0.
+Proof.
+  intros I (_ & _ & _ & (c & Lc & Rv) & Hm) H.
+  pose proof (not_max_live meta s old c I Lc Rv) as Rc.
+  destruct (renew1_form _ _ _ _ _ _ _ _ _ _ _ _ _ c Lc H) as (Ln1 & Hne & -> & -> & -> & Hfs & Hmr & ->).
+  destruct (inv_live s old c I (conj (or_introl Lc) Rc)) as (Hl & Hf & Hmm).
+  destruct (renew_lookup (t1 (dbs s)) old new (with_to (with_rev c max_rev 0 0) (Some new))
+              (nc1 nrev nfsize nmroot nws) Hne Ln1) as [LK _].
+  exists c. repeat split; auto.
+  - eexists. cbn [dbs set_cache set_dbs set_t1 t1]. rewrite LK.
+    replace (new =? old) with false by lia. rewrite N.eqb_refl. split; [reflexivity|].
+    cbn [with_rows with_from with_to with_rev rows fsize mroot rto rfrom nc1]. repeat split; auto; congruence.
+  - unfold cache_get at 1; cbn [cache set_cache]. now rewrite alookup_aset_same.
+  - eexists. cbn [dbs set_cache set_dbs set_t1 t1]. rewrite LK, N.eqb_refl. split; [reflexivity|].
+    cbn [with_rows with_to with_rev rows rto rev]. auto.
+Qed.
+
+Theorem renew2_handover s old new c mold wf fault s' :
+  Inv s -> disc s (Renew2 old new c mold wf fault) ->
+  step s (Renew2 old new c mold wf fault) = (s', ORes (Ok tt)) ->
+  exists c0, alookup old (t2 (dbs s)) = Some c0 /\ rto c0 = None /\ handover false s s' old new c0.
+Proof.
+  intros I (_ & Hm & Hdet) H.
+  destruct (renew2_form _ _ _ _ _ _ _ _ H) as (e & Le & Ln2 & Hne & Hfs & Hcap & Hmr & _ & ->).
+  assert (Re : rto e = None).
+  { destruct (rto e) as [d|] eqn:Re; [|reflexivity]. exfalso.
+    destruct (proj2 (inv_t2 meta s I) old e Le) as [Hx _]. unfold entry_ok in Hx.
+    rewrite Re in Hx. destruct Hx as (_ & _ & _ & cd & Ld & _).
+    rewrite <- (Hdet e d Le Re) in Ld. congruence. }
+  destruct (inv_live s old e I (conj (or_intror Le) Re)) as (Hl & Hf & Hmm).
+  destruct (renew_lookup (t2 (dbs s)) old new (with_to e (Some new)) (ct_of_rv2 c) Hne Ln2) as [LK _].
+  exists e. repeat split; auto.
+  - eexists. cbn [dbs set_cache set_dbs set_t2 t2]. rewrite LK.
+    replace (new =? old) with false by lia. rewrite N.eqb_refl. split; [reflexivity|].
+    cbn [with_rows with_from with_to rows fsize mroot rto rfrom ct_of_rv2]. repeat split; auto.
+  - unfold cache_get at 1; cbn [cache set_cache]. now rewrite alookup_aset_same.
+  - eexists. cbn [dbs set_cache set_dbs set_t2 t2]. rewrite LK, N.eqb_refl. split; [reflexivity|].
+    cbn [with_rows with_to rows rto]. repeat split; auto. discriminate.
+Qed.
+
+(** * a renewed contract refuses *)
+
+Definition renewed1 (s : state) (id d : cid) : Prop :=
+  exists c, alookup id (t1 (dbs s)) = Some c /\ rto c = Some d.
+Definition renewed2 (s : state) (id d : cid) : Prop :=
+  exists c, alookup id (t2 (dbs s)) = Some c /\ rto c = Some d.
+
+Lemma pred1_refuses_lock s id d : Inv s -> renewed1 s id d ->
+  step s (Lock1 id) = (s, ORes (Err EInvalid)) \/ step s (Lock1 id) = (s, ORes (Err EInsufficient)).
+Proof.
+  intros I (c & L & R). cbn [step]. destruct (mem id (locks s)); [now right|]. rewrite L.
+  destruct (proj2 (inv_t1 meta s I) id c L) as [H _]. unfold entry_ok in H. rewrite R in H.
+  destruct H as (_ & Hm & _). unfold good1. rewrite (Hm eq_refl), N.eqb_refl, andb_false_r. now left.
+Qed.
+
+Lemma pred2_refuses_revision s id d c newroots mnew rsig hsig fault : renewed2 s id d ->
+  step s (Revise2 id c newroots mnew rsig hsig fault) = (s, ORes (Err EInvalid)) \/
+  step s (Revise2 id c newroots mnew rsig hsig fault) = (s, ORes (Err EOther)).
+Proof.
+  intros (e & L & R).
+  assert (H0 : step s (Revise2 id c newroots mnew rsig hsig None) = (s, ORes (Err EInvalid))).
+  { cbn [step]. unfold m_revise2, mbind. rewrite (store_get_run _ _ _ L), R. reflexivity. }
+  destruct fault as [k|]; [|now left].
+  destruct (fault_any_statement s (Revise2 id c newroots mnew rsig hsig None) k) as [E|E]; rewrite E; auto.
+Qed.
+
+Lemma pred2_reports_renewed s id d : renewed2 s id d -> mem id (locks s) = false ->
+  exists r l, step s (Lock2 id) = (s, OLock2 (Ok (r, true, false, l))).
+Proof. intros (e & L & R) M. cbn [step]. rewrite M, L, R. cbn [opt_is_some negb andb]. eauto. Qed.
+
+(* renewing it a second time is refused as well ([new] is its one renewal id) *)
+Lemma pred2_refuses_renewal s id d c mold wf fault : Inv s -> renewed2 s id d ->
+  exists e, step s (Renew2 id d c mold wf fault) = (s, ORes (Err e)).
+Proof.
+  intros I (e & L & R).
+  assert (H0 : exists x, step s (Renew2 id d c mold wf None) = (s, ORes (Err x))).
+  { cbn [step]. unfold m_renew2. destruct (negb wf); [now eexists|].
+    unfold mbind. rewrite (store_get_run _ _ _ L).
+    destruct (negb (r2_fsize c =? fsize e)); [now eexists|].
+    destruct (negb (r2_cap c =? cap e)); [now eexists|].
+    destruct (negb (r2_mroot c =? mroot e)); [now eexists|].
+    destruct (negb (r2_mroot c =? mold)); [now eexists|].
+    destruct (proj2 (inv_t2 meta s I) id e L) as [H _]. unfold entry_ok in H. rewrite R in H.
+    destruct H as (_ & _ & _ & cd & Ld & _).
+    cbv [store_renew2 transaction mbind stmt ret lift]. rewrite Ld. now eexists. }
+  destruct H0 as (x & H0). destruct fault as [k|]; [|now exists x].
+  destruct (fault_any_statement s (Renew2 id d c mold wf None) k) as [E|E]; rewrite E; eauto.
+Qed.
+
+(** * ... for ever: links are never undone by a disciplined operation *)
+
+Lemma renewed1_stable s o id d : Inv s -> disc s o -> renewed1 s id d -> renewed1 (fst (step s o)) id d.
+Proof.
+  intros I D (c & L & R).
+  assert (Same : forall s', t1 (dbs s') = t1 (dbs s) -> renewed1 s' id d) by (intros s' E; exists c; now rewrite E).
+  destruct o; try (apply Same; reflexivity).
+  - (* Form1 *) cbn [step]. unfold outcome.
+    match goal with |- context [store_add1 ?dd ?i ?cc None] => destruct (store_add1 dd i cc None) as [[d' k]|e|] eqn:E end;
+      try (apply Same; reflexivity).
+    apply store_add1_ok in E as [L1 ->]. exists c. cbn [fst dbs set_dbs set_t1 t1].
+    rewrite alookup_aset. destruct (id =? id0) eqn:Ei; [apply N.eqb_eq in Ei; subst; congruence|auto].
+  - (* Form2 *) cbn [step]. unfold outcome.
+    destruct (store_add2 (dbs s) id0 (ct_of_rv2 c0) None) as [[d' k]|e|] eqn:E; try (apply Same; reflexivity).
+    apply store_add2_ok in E as [_ ->]. apply Same. reflexivity.
+  - (* Lock1 *) cbn [step]. destruct (mem id0 (locks s)); [apply Same; reflexivity|].
+    destruct (alookup id0 (t1 (dbs s))); [|apply Same; reflexivity].
+    destruct (good1 (height s) c0); apply Same; reflexivity.
+  - cbn [step]. destruct (mem id0 (locks s)); apply Same; reflexivity.
+  - cbn [step]. destruct (alookup u (upds s)); [|apply Same; reflexivity].
+    destruct (upd_apply (u_roots u0) a); apply Same; reflexivity.
+  - (* Commit1 *)
+    destruct (step s (Commit1 u nrev nfsize nmroot fault)) as [s' ob] eqn:E. cbn [fst].
+    destruct ob as [[[]|e|]| | | |];
+      try (pose proof E as E'; apply step_error_unchanged in E'; [subst s'; now exists c|discriminate]).
+    + apply commit1_form in E as (x & c1 & t' & Lu & Lc1 & _ & ->).
+      exists c. cbn [dbs set_upds set_cache set_dbs set_t1 t1]. rewrite alookup_aset.
+      destruct (id =? u_cid x) eqn:Ei; [|auto]. apply N.eqb_eq in Ei; subst id.
+      destruct (inv_upd meta s I u x Lu) as ((c2 & Lc2 & Rc2) & _). congruence.
+    + cbn [step] in E. destruct (alookup u (upds s)); [|discriminate]. unfold outcome in E.
+      destruct (m_commit1 s u0 nrev nfsize nmroot fault) as [[? ?]| |]; discriminate.
+    + cbn [step] in E. destruct (alookup u (upds s)); [|discriminate]. unfold outcome in E.
+      destruct (m_commit1 s u0 nrev nfsize nmroot fault) as [[? ?]| |]; discriminate.
+    + cbn [step] in E. destruct (alookup u (upds s)); [|discriminate]. unfold outcome in E.
+      destruct (m_commit1 s u0 nrev nfsize nmroot fault) as [[? ?]| |]; discriminate.
+    + cbn [step] in E. destruct (alookup u (upds s)); [|discriminate]. unfold outcome in E.
+      destruct (m_commit1 s u0 nrev nfsize nmroot fault) as [[? ?]| |]; discriminate.
+  - (* Renew1 *)
+    destruct D as (_ & _ & _ & (c1 & Lc1 & Rv1) & _).
+    destruct (step s (Renew1 old new crev cfsize cmroot nrev nfsize nmroot nws mold fault)) as [s' ob] eqn:E.
+    cbn [fst]. destruct ob as [[[]|e|]| | | |];
+      try (pose proof E as E'; apply step_error_unchanged in E'; [subst s'; now exists c|discriminate]);
+      try (cbn [step] in E; unfold outcome in E;
+           match type of E with (match ?m with _ => _ end) = _ => destruct m as [[? ?]| |]; discriminate end).
+    destruct (renew1_form _ _ _ _ _ _ _ _ _ _ _ _ _ c1 Lc1 E) as (Ln1 & Hne & _ & _ & _ & _ & _ & ->).
+    destruct (renew_lookup (t1 (dbs s)) old new (with_to (with_rev c1 crev cfsize cmroot) (Some new))
+                (nc1 nrev nfsize nmroot nws) Hne Ln1) as [LK _].
+    exists c. cbn [dbs set_cache set_dbs set_t1 t1]. rewrite LK.
+    assert (id <> old).
+    { intros ->. rewrite Lc1 in L. injection L as <-.
+      pose proof (not_max_live meta s old c1 I Lc1 Rv1). congruence. }
+    assert (id <> new) by congruence.
+    replace (id =? old) with false by lia. replace (id =? new) with false by lia. auto.
+  - (* Revise2 *)
+    destruct (step s (Revise2 id0 c0 newroots mnew rsig hsig fault)) as [s' ob] eqn:E. cbn [fst].
+    destruct ob as [[[]|e|]| | | |];
+      try (pose proof E as E'; apply step_error_unchanged in E'; [subst s'; now exists c|discriminate]);
+      try (cbn [step] in E; unfold outcome in E;
+           match type of E with (match ?m with _ => _ end) = _ => destruct m as [[? ?]| |]; discriminate end).
+    apply revise2_form in E as (e & t' & _ & _ & _ & _ & _ & ->). apply Same. reflexivity.
+  - (* Renew2 *)
+    destruct (step s (Renew2 old new c0 mold wf fault)) as [s' ob] eqn:E. cbn [fst].
+    destruct ob as [[[]|e|]| | | |];
+      try (pose proof E as E'; apply step_error_unchanged in E'; [subst s'; now exists c|discriminate]);
+      try (cbn [step] in E; unfold outcome in E;
+           match type of E with (match ?m with _ => _ end) = _ => destruct m as [[? ?]| |]; discriminate end).
+    apply renew2_form in E as (e & _ & _ & _ & _ & _ & _ & _ & ->). apply Same. reflexivity.
+  - cbn [step]. destruct (mem id0 (locks s)); [apply Same; reflexivity|].
+    destruct (alookup id0 (t2 (dbs s))); apply Same; reflexivity.
+  - destruct D.
+  - destruct D.
+Qed.
+
+
+Lemma renewed2_stable s o id d : Inv s -> disc s o -> renewed2 s id d -> renewed2 (fst (step s o)) id d.
+Proof.
+  intros I D (c & L & R).
+  assert (Same : forall s', t2 (dbs s') = t2 (dbs s) -> renewed2 s' id d) by (intros s' E; exists c; now rewrite E).
+  destruct o; try (apply Same; reflexivity).
+  - (* Form1 *) cbn [step]. unfold outcome.
+    match goal with |- context [store_add1 ?dd ?i ?cc None] => destruct (store_add1 dd i cc None) as [[d' k]|e|] eqn:E end;
+      try (apply Same; reflexivity).
+    apply store_add1_ok in E as [_ ->]. apply Same. reflexivity.
+  - (* Form2 *) cbn [step]. unfold outcome.
+    destruct (store_add2 (dbs s) id0 (ct_of_rv2 c0) None) as [[d' k]|e|] eqn:E; try (apply Same; reflexivity).
+    apply store_add2_ok in E as [L2 ->]. exists c. cbn [fst dbs set_dbs set_t2 t2].
+    rewrite alookup_aset. destruct (id =? id0) eqn:Ei; [apply N.eqb_eq in Ei; subst; congruence|auto].
+  - cbn [step]. destruct (mem id0 (locks s)); [apply Same; reflexivity|].
+    destruct (alookup id0 (t1 (dbs s))); [|apply Same; reflexivity].
+    destruct (good1 (height s) c0); apply Same; reflexivity.
+  - cbn [step]. destruct (mem id0 (locks s)); apply Same; reflexivity.
+  - cbn [step]. destruct (alookup u (upds s)); [|apply Same; reflexivity].
+    destruct (upd_apply (u_roots u0) a); apply Same; reflexivity.
+  - (* Commit1 *)
+    destruct (step s (Commit1 u nrev nfsize nmroot fault)) as [s' ob] eqn:E. cbn [fst].
+    destruct ob as [[[]|e|]| | | |];
+      try (pose proof E as E'; apply step_error_unchanged in E'; [subst s'; now exists c|discriminate]);
+      try (cbn [step] in E; destruct (alookup u (upds s)); [|discriminate]; unfold outcome in E;
+           match type of E with (match ?m with _ => _ end) = _ => destruct m as [[? ?]| |]; discriminate end).
+    apply commit1_form in E as (x & c1 & t' & _ & _ & _ & ->). apply Same. reflexivity.
+  - (* Renew1 *)
+    destruct D as (_ & _ & _ & (c1 & Lc1 & Rv1) & _).
+    destruct (step s (Renew1 old new crev cfsize cmroot nrev nfsize nmroot nws mold fault)) as [s' ob] eqn:E.
+    cbn [fst]. destruct ob as [[[]|e|]| | | |];
+      try (pose proof E as E'; apply step_error_unchanged in E'; [subst s'; now exists c|discriminate]);
+      try (cbn [step] in E; unfold outcome in E;
+           match type of E with (match ?m with _ => _ end) = _ => destruct m as [[? ?]| |]; discriminate end).
+    destruct (renew1_form _ _ _ _ _ _ _ _ _ _ _ _ _ c1 Lc1 E) as (_ & _ & _ & _ & _ & _ & _ & ->).
+    apply Same. reflexivity.
+  - (* Revise2 *)
+    destruct (step s (Revise2 id0 c0 newroots mnew rsig hsig fault)) as [s' ob] eqn:E. cbn [fst].
+    destruct ob as [[[]|e|]| | | |];
+      try (pose proof E as E'; apply step_error_unchanged in E'; [subst s'; now exists c|discriminate]);
+      try (cbn [step] in E; unfold outcome in E;
+           match type of E with (match ?m with _ => _ end) = _ => destruct m as [[? ?]| |]; discriminate end).
+    apply revise2_form in E as (e & t' & Le & Re & _ & _ & _ & ->).
+    exists c. cbn [dbs set_cache set_dbs set_t2 t2]. rewrite alookup_aset.
+    destruct (id =? id0) eqn:Ei; [|auto]. apply N.eqb_eq in Ei; subst. congruence.
+  - (* Renew2 *)
+    destruct D as (_ & _ & Hdet).
+    destruct (step s (Renew2 old new c0 mold wf fault)) as [s' ob] eqn:E. cbn [fst].
+    destruct ob as [[[]|e|]| | | |];
+      try (pose proof E as E'; apply step_error_unchanged in E'; [subst s'; now exists c|discriminate]);
+      try (cbn [step] in E; unfold outcome in E;
+           match type of E with (match ?m with _ => _ end) = _ => destruct m as [[? ?]| |]; discriminate end).
+    apply renew2_form in E as (e & Le & Ln2 & Hne & _ & _ & _ & _ & ->).
+    destruct (renew_lookup (t2 (dbs s)) old new (with_to e (Some new)) (ct_of_rv2 c0) Hne Ln2) as [LK _].
+    exists c. cbn [dbs set_cache set_dbs set_t2 t2]. rewrite LK.
+    assert (id <> new) by congruence.
+    assert (id <> old).
+    { intros ->. rewrite Le in L. injection L as <-.
+      destruct (proj2 (inv_t2 meta s I) old e Le) as [Hx _]. unfold entry_ok in Hx.
+      rewrite R in Hx. destruct Hx as (_ & _ & _ & cd & Ld & _).
+      rewrite <- (Hdet e d Le R) in Ld. congruence. }
+    replace (id =? old) with false by lia. replace (id =? new) with false by lia. auto.
+  - cbn [step]. destruct (mem id0 (locks s)); [apply Same; reflexivity|].
+    destruct (alookup id0 (t2 (dbs s))); apply Same; reflexivity.
+  - destruct D.
+  - destruct D.
+Qed.
+
+(* over whole histories *)
+Theorem renewed_forever : forall ops s id d, Inv s -> disc_run meta s ops ->
+  (renewed1 s id d -> renewed1 (runs s ops) id d) /\ (renewed2 s id d -> renewed2 (runs s ops) id d).
+Proof.
+  induction ops as [|o ops IH]; intros s id d I D; cbn in *; [auto|].
+  destruct D as [D1 D2]. pose proof (inv_step meta s o I D1) as I'.
+  destruct (IH (fst (step s o)) id d I' D2) as [H1 H2]. split; intros H.
+  - apply H1. now apply renewed1_stable.
+  - apply H2. now apply renewed2_stable.
+Qed.
+
+(** * the sectors stay stored *)
+
+Lemma refd_in_iff t r : NoDup (map fst t) ->
+  (refd_in t r = true <-> exists id c, alookup id t = Some c /\ mem r (tbl_list (rows c)) = true).
+Proof.
+  intros ND. unfold refd_in. rewrite existsb_exists. split.
+  - intros ([id c] & Hin & Hm). exists id, c. split; [now apply In_alookup|exact Hm].
+  - intros (id & c & L & Hm). exists (id, c). split; [now apply alookup_In|exact Hm].
+Qed.
+
+Lemma refd_renew t old new oc nc r : NoDup (map fst t) -> old <> new -> alookup new t = None ->
+  alookup old t = Some oc -> refd_in t r = true ->
+  forall oc', rows oc' = rows oc ->
+  refd_in (move_rows old new (link_from old new (aset old oc' (aset new nc t)))) r = true.
+Proof.
+  intros ND Hne Ln Lo H oc' Hr.
+  destruct (renew_lookup t old new oc' nc Hne Ln) as [LK ND'].
+  apply refd_in_iff in H; [|exact ND]. destruct H as (id & c & L & Hm).
+  apply refd_in_iff; [now apply ND'|].
+  destruct (N.eq_dec id old) as [->|Ho].
+  - exists new. eexists. rewrite LK. replace (new =? old) with false by lia. rewrite N.eqb_refl.
+    split; [reflexivity|]. cbn [with_rows rows]. rewrite Hr. congruence.
+  - exists id, c. rewrite LK. replace (id =? old) with false by lia.
+    assert (id <> new) by congruence. replace (id =? new) with false by lia. auto.
+Qed.
+
+(* a renewal keeps every referenced sector referenced *)
+Lemma renew_keeps_refs s o s' r : Inv s -> disc s o -> step s o = (s', ORes (Ok tt)) ->
+  match o with Renew1 _ _ _ _ _ _ _ _ _ _ _ | Renew2 _ _ _ _ _ _ => True | _ => False end ->
+  referenced (dbs s) r = true -> referenced (dbs s') r = true.
+Proof.
+  intros I D H Ho. destruct o; try contradiction; unfold referenced; intros Hr.
+  - destruct D as (_ & _ & _ & (c & Lc & Rv) & _).
+    destruct (renew1_form _ _ _ _ _ _ _ _ _ _ _ _ _ c Lc H) as (Ln1 & Hne & _ & _ & _ & _ & _ & ->).
+    cbn [dbs set_cache set_dbs set_t1 t1 t2]. apply orb_true_iff in Hr as [Hr|Hr]; apply orb_true_iff; [left|now right].
+    eapply refd_renew; eauto. exact (proj1 (inv_t1 meta s I)).
+  - apply renew2_form in H as (e & Le & Ln2 & Hne & _ & _ & _ & _ & ->).
+    cbn [dbs set_cache set_dbs set_t2 t1 t2]. apply orb_true_iff in Hr as [Hr|Hr]; apply orb_true_iff; [now left|right].
+    eapply refd_renew; eauto. exact (proj1 (inv_t2 meta s I)).
+Qed.
+
+Lemma mem_filter f l r : mem r l = true -> f r = true -> mem r (filter f l) = true.
+Proof.
+  unfold mem. rewrite !existsb_exists. intros (y & Hy & E) Hf. apply N.eqb_eq in E; subst y.
+  exists r. split; [apply filter_In; auto|apply N.eqb_refl].
+Qed.
+
+(* pruning never takes the slot of a referenced sector *)
+Lemma prune_keeps_referenced s r :
+  referenced (dbs s) r = true -> mem r (located (dbs s)) = true ->
+  mem r (located (dbs (fst (step s Prune)))) = true /\ referenced (dbs (fst (step s Prune))) r = true.
+Proof. intros H M. cbn [step fst dbs set_dbs located]. split; [now apply mem_filter|exact H]. Qed.
+
+(* nothing but pruning ever takes a slot away, and nothing forgets a stored sector *)
+Lemma located_kept s o r : o <> Prune ->
+  mem r (located (dbs s)) = true -> mem r (located (dbs (fst (step s o)))) = true.
+Proof.
+  intros Hp Hloc.
+  assert (Same : forall s', located (dbs s') = located (dbs s) -> mem r (located (dbs s')) = true)
+    by (intros s' E; now rewrite E).
+  assert (Out : forall (m : M db) fault f, fok m ->
+            (forall d', m None = Ok (d', None) -> located (dbs (f d')) = located (dbs s)) ->
+            mem r (located (dbs (fst (outcome s (m fault) f)))) = true).
+  { intros m fault f F Hf. unfold outcome. destruct (m fault) as [[d' k]|e|] eqn:E; cbn [fst]; auto.
+    apply Same, Hf. eapply ok_any_fault; eauto. }
+  destruct o; try (apply Same; reflexivity); try congruence.
+  - cbn [step fst dbs set_dbs located]. destruct (mem r0 (located (dbs s))); [exact Hloc|].
+    unfold mem in *. cbn [existsb]. now rewrite Hloc, orb_true_r.
+  - cbn [step]. apply (Out (store_add1 (dbs s) id _) None); [apply fok_store_add1|].
+    intros d' E. apply store_add1_ok in E as [_ ->]. reflexivity.
+  - cbn [step]. apply (Out (store_add2 (dbs s) id _) None); [apply fok_store_add2|].
+    intros d' E. apply store_add2_ok in E as [_ ->]. reflexivity.
+  - cbn [step]. destruct (mem id (locks s)); [apply Same; reflexivity|].
+    destruct (alookup id (t1 (dbs s))); [|apply Same; reflexivity].
+    destruct (good1 (height s) c); apply Same; reflexivity.
+  - cbn [step]. destruct (mem id (locks s)); apply Same; reflexivity.
+  - cbn [step]. destruct (alookup u (upds s)); [|apply Same; reflexivity].
+    destruct (upd_apply (u_roots u0) a); apply Same; reflexivity.
+  - cbn [step]. destruct (alookup u (upds s)) as [x|]; [|apply Same; reflexivity].
+    apply Out; [apply fok_m_commit1|]. intros d' E. unfold m_commit1 in E.
+    apply store_revise1_ok in E as (c & t' & _ & _ & ->). reflexivity.
+  - cbn [step]. apply Out; [apply fok_m_renew1|]. intros d' E. unfold m_renew1 in E.
+    repeat match type of E with (if ?b then _ else _) _ = _ => destruct b; [discriminate|] end.
+    apply store_renew1_ok in E as (_ & c & _ & ->). reflexivity.
+  - cbn [step]. apply Out; [apply fok_m_revise2|]. intros d' E. unfold m_revise2, mbind in E.
+    destruct (store_get (t2 (dbs s)) id None) as [[e k0]| |] eqn:Eg; try discriminate.
+    apply store_get_ok in Eg as [_ ->].
+    repeat match type of E with (if ?b then _ else _) _ = _ => destruct b; [discriminate|] end.
+    apply store_revise2_ok in E as (e' & t' & _ & _ & ->). reflexivity.
+  - cbn [step]. apply Out; [apply fok_m_renew2|]. intros d' E. unfold m_renew2 in E.
+    destruct (negb wf); [discriminate|]. unfold mbind in E.
+    destruct (store_get (t2 (dbs s)) old None) as [[e k0]| |] eqn:Eg; try discriminate.
+    apply store_get_ok in Eg as [_ ->].
+    repeat match type of E with (if ?b then _ else _) _ = _ => destruct b; [discriminate|] end.
+    apply store_renew2_ok in E as (_ & c0 & _ & ->). reflexivity.
+  - cbn [step]. destruct (mem id (locks s)); [apply Same; reflexivity|].
+    destruct (alookup id (t2 (dbs s))); apply Same; reflexivity.
+  - cbn [step]. apply Out; [apply fok_store_revise1|]. intros d' E.
+    apply store_revise1_ok in E as (c & t' & _ & _ & ->). reflexivity.
+  - cbn [step]. apply Out; [apply fok_store_revise2|]. intros d' E.
+    apply store_revise2_ok in E as (c0 & t' & _ & _ & ->). reflexivity.
+Qed.
+
+End Renew.
